@@ -42,6 +42,8 @@ mod boxcar;
 mod par_sort;
 pub mod pattern;
 mod worker;
+#[cfg(nucleo_verif)]
+pub mod verif;
 
 #[cfg(test)]
 mod tests;
@@ -402,7 +404,11 @@ impl<T: Sync + Send + 'static> Nucleo<T> {
             self.worker.lock_arc()
         } else {
             let Some(worker) = self.worker.try_lock_arc_for(Duration::from_millis(timeout)) else {
+                #[cfg(nucleo_verif)]
+                crate::verif::point("tick.lock_timeout", 0);
                 self.should_notify.store(true, Ordering::Release);
+                #[cfg(nucleo_verif)]
+                crate::verif::point("tick.rearmed", 0);
                 return Status {
                     changed: false,
                     running: true,
@@ -430,6 +436,8 @@ impl<T: Sync + Send + 'static> Nucleo<T> {
             if cleared {
                 inner.items = self.items.clone();
             }
+            #[cfg(nucleo_verif)]
+            crate::verif::point("tick.spawn", cleared as u64);
             self.pool
                 .spawn(move || unsafe { inner.run(status, cleared) })
         }
